@@ -3415,6 +3415,11 @@ static void scan_globals(void) {
       continue;
     }
 
+    // A tentative definition of an array of unknown size behaves as if
+    // it had one element [https://www.sigbus.info/n1570#6.9.2p5].
+    if (var->ty->kind == TY_ARRAY && var->ty->size < 0)
+      var->ty = array_of(var->ty->base, 1);
+
     // Find another definition of the same identifier.
     Obj *var2 = globals;
     for (; var2; var2 = var2->next)
